@@ -658,6 +658,7 @@ func decodeRPM(b []byte) (*pkgObs, error) {
 			x = cx[i]
 		}
 		o.Meta = append(o.Meta, kv{"Changelog", fmt.Sprintf("%d|%s|%s", t, cn[i], x)})
+		o.Meta = append(o.Meta, kv{"ChangelogTime", fmt.Sprint(t)}, kv{"ChangelogName", cn[i]}, kv{"ChangelogText", x})
 	}
 	for _, s := range []struct {
 		n string
